@@ -250,6 +250,30 @@ def emit_solver_fn(hdr, cls, name, cname, report, ret_c=None, extra=(), pre=(), 
     return t
 
 
+
+# --------------------------------------------------------------------------- selection rule carried by the object instead of by parameters
+def rule_carrier(hdr, cls):
+    """The selection rule normally travels compute(selection) -> restart(k, selection) -> retrieve_ritzpair(selection) -> argsort(selection, ...).
+    A refactoring may keep it in a data member instead.  Then `selection` stays in the CONTRACTS as a ghost parameter - the rule the caller of compute()
+    asked for - and the helper functions get the precondition `member == selection`, asserted at every call site: the object has to carry the requested rule
+    whenever a helper orders Ritz pairs by it.  Returns the member name, or None for the parameter form."""
+    f = X.locate(hdr, "retrieve_ritzpair", cls=cls)
+    if re.search(r"\bselection\b", f.params):
+        return None
+    m = re.search(r"\bargsort\(\s*(m_\w+)\s*,", f.body)
+    if not m or m.group(1) not in [n for _, n in EXTRA_FIELDS["Solver"]] + list(SOLVER_MEMBERS):
+        raise X.ExtractionBreak("%s::retrieve_ritzpair takes no selection rule and none is passed to argsort from a data member" % cls)
+    return m.group(1)
+
+
+def _ghost_selection(t, cname, member, report):
+    """Add the ghost parameter `SortRule selection` to the emitted prototype of a helper that reads the rule from `member`."""
+    t2, k = re.subn(r"\b(%s\(Solver \*S(?:, Index \w+)?)\)" % cname, r"\1, SortRule selection)", t, count=1)
+    if k != 1:
+        raise X.ExtractionBreak("rule carrier: prototype of %s not recognised" % cname)
+    report["rule carrier"] = "selection rule kept in member %s: `selection` is a ghost parameter of %s with precondition S->%s == selection" % (member, cname, member)
+    return t2
+
 # --------------------------------------------------------------------------- nev_adjusted
 
 def f_nev_adjusted(gen, report):
@@ -454,8 +478,13 @@ def f_retrieve_ritzpair_herm(report):
                  frame=["S->st_ritz", "g_clock", "g_ia", "g_ib", "g_va", "g_vb"],
                  frame_objs=["S->m_ritz_val", "S->m_ritz_est", "S->tag_val", "S->tag_est", "S->m_ritz_vec.coltag"],
                  may_throw=[1, 2], olds=[("Index", "old_clock", "g_clock")], real=HB + ":retrieve_ritzpair")
+    carrier = rule_carrier(HB, "HermEigsBase")
+    if carrier:
+        spec.pre.append(("the object carries the selection rule requested by the caller of compute() whenever Ritz pairs are ordered by it", "S->%s == selection" % carrier))
     t = emit_solver_fn(HB, "HermEigsBase", "retrieve_ritzpair", "retrieve_ritzpair", report, ret_c="void", extra=extra,
                        loops={0: inv1, 1: inv2}, contract=spec.frame_contract(), maythrow=["EIGEN_DECOMP", "argsort"])
+    if carrier:
+        t = _ghost_selection(t, "retrieve_ritzpair", carrier, report)
     ordf = "".join("static _Bool verif_ordered_%s(SortRule selection, Scalar va, Scalar vb) { return %s; }\n" % (r, cl)
                    for r, cl in ordered_clause("S->m_ritz_val"))
     return ordf + t, spec
@@ -956,6 +985,9 @@ def restart_spec(gen, retrieve_post):
 
 def f_restart_herm(report, retrieve_post):
     spec = restart_spec(False, retrieve_post)
+    carrier = rule_carrier(HB, "HermEigsBase")
+    if carrier:
+        spec.pre.append(("the object carries the selection rule requested by the caller of compute() whenever Ritz pairs are ordered by it", "S->%s == selection" % carrier))
     extra = accessor_rules(report) + [
         ("decomp", r"TridiagQR<RealScalar> decomp\(([^;]+)\);", r"QRDecomp decomp; decomp.n = (\1); decomp.computed = 0; decomp.nshift = 1;", {"max": 1}),
         ("Q", r"RealMatrix Q = RealMatrix::Identity\(([^;]+)\);", r"Mat Q = MAT_NEW(\1);", {"max": 1}),
@@ -968,7 +1000,7 @@ def f_restart_herm(report, retrieve_post):
         ("compress_H", r"S->m_fac\.compress_H\(decomp\);", "compress_H_tridiag(&S->m_fac, &decomp); g_shifts_applied++;", {"max": 1}),
         ("compress_V", r"S->m_fac\.compress_V\(Q\);", "compress_V(&S->m_fac, Q);", {"max": 1}),
         ("factorize", r"S->m_fac\.factorize_from\(([^;]+), S->m_nmatop\);", r"factorize_from(&S->m_fac, \1, &S->m_nmatop);", {"max": 1}),
-        ("retrieve", r"(?<![\w>])retrieve_ritzpair\(selection\);", "retrieve_ritzpair(S, selection);", {"max": 1}),
+        ("retrieve", r"(?<![\w>])retrieve_ritzpair\((?:selection)?\);", "retrieve_ritzpair(S, selection);", {"max": 1}),
     ]
     inv = ("__CPROVER_assigns(i, decomp, Q.cell, g_shifts_applied, verif_exc, S->m_fac.m_k, S->m_fac.g_valid_k, S->m_fac.m_fac_H.rows, S->m_fac.m_fac_H.cols, S->m_fac.m_fac_H.cell) "
            "__CPROVER_loop_invariant(0 <= i && i <= nshift && verif_exc == 0 && g_shifts_applied == i && S->m_fac.m_k == S->m_ncv - i && "
@@ -977,6 +1009,8 @@ def f_restart_herm(report, retrieve_post):
     t = emit_solver_fn(HB, "HermEigsBase", "restart", "restart", report, ret_c="void", extra=extra, loops={0: inv},
                        contract=spec.frame_contract(),
                        maythrow=["QR_compute", "QR_apply_YQ", "compress_H_tridiag", "compress_V", "factorize_from", "retrieve_ritzpair"])
+    if carrier:
+        t = _ghost_selection(t, "restart", carrier, report)
     return t, spec
 
 
@@ -1038,6 +1072,9 @@ def _compute_factorize(m):
 def f_compute(gen, report, sort_post):
     hdr, cls = (GB, "GenEigsBase") if gen else (HB, "HermEigsBase")
     spec = compute_spec(gen, sort_post)
+    carrier = None if gen else rule_carrier(HB, "HermEigsBase")
+    if carrier:
+        spec.frame.append("S->%s" % carrier)
     # loop locals are identified by their ROLE in the code (loop counter, result of num_converged, result of nev_adjusted),
     # not by name: a renamed local keeps the sidecar loop contract applicable
     body0 = X.locate(hdr, "compute", cls=cls).body
@@ -1050,10 +1087,10 @@ def f_compute(gen, report, sort_post):
     ren = lambda t: re.sub(r"\bnev_adj\b", L_A, re.sub(r"\bnconv\b", L_C, re.sub(r"(?<![\w.>])i\b(?!\s*\()", L_I, t)))
     extra = accessor_rules(report) + [
         ("factorize", r"S->m_fac\.factorize_from\((.*?), S->m_nmatop\);", _compute_factorize, {"max": 1}),
-        ("retrieve", r"(?<![\w>])retrieve_ritzpair\(selection\);", "retrieve_ritzpair(S, selection);", {"max": 1}),
+        ("retrieve", r"(?<![\w>])retrieve_ritzpair\((?:selection)?\);", "retrieve_ritzpair(S, selection);", {"max": 1}),
         ("num_converged", r"(?<![\w>])num_converged\(tol\)", "num_converged(S, tol)", {"min": 1, "max": 2}),
         ("nev_adjusted", r"(?<![\w>])nev_adjusted\((\w+)\)", r"nev_adjusted(S, \1)", {"max": 1}),
-        ("restart", r"(?<![\w>])restart\((\w+), selection\);", r"g_budget += 2 * (S->m_ncv - (\1)); g_term += 2 * S->m_ncv; g_calls++; restart(S, \1, selection); g_restarts++;", {"max": 1}),
+        ("restart", r"(?<![\w>])restart\((\w+)(?:, selection)?\);", r"g_budget += 2 * (S->m_ncv - (\1)); g_term += 2 * S->m_ncv; g_calls++; restart(S, \1, selection); g_restarts++;", {"max": 1}),
         ("sort", r"(?<![\w>])sort_ritzpair\(sorting\);", "sort_ritzpair(S, sorting);", {"max": 1}),
     ]
     inv = ("__CPROVER_assigns(i, nconv, nev_adj, verif_exc, S->m_nmatop, g_ops, g_clock, g_accepted, g_bd_col, g_restarts, g_budget, g_term, g_calls, S->st_ritz, S->st_conv, S->cnt_conv, "
@@ -1152,6 +1189,17 @@ def f_ctor(gen, report, ordinal=0):
     else:
         want = ("m_op_container(create_op_container(std::move(op))), m_op(m_op_container.front()), m_n(m_op.rows()), m_nev(nev), m_ncv(ncv > m_n ? m_n : ncv), "
                 "m_nmatop(0), m_niter(0), m_fac(ArnoldiOpType(m_op, Bop), m_ncv), m_info(CompInfo::NotComputed)")
+    extra_init = ""
+    if inits != want and inits.startswith(want):
+        # initialisers of members added to the class since (simple scalar / enum types only: check_members) are taken over as statements
+        rest = inits[len(want):]
+        names = [n for _, n in EXTRA_FIELDS["Solver"]]
+        for it in X.split_top(rest)[1:] if rest.startswith(",") else [None]:
+            mi = re.match(r"^\s*(\w+)\(([\w:.+\- ]*)\)\s*$", it or "")
+            if not mi or mi.group(1) not in names:
+                raise X.ExtractionBreak("%s constructor #%d initialiser list changed: %r" % (cls, ordinal, inits))
+            extra_init += " S->%s = %s;" % (mi.group(1), re.sub(r"\b(\w+)::(\w+)", r"\1_\2", mi.group(2)) or "0")
+        inits = want
     if inits != want:
         raise X.ExtractionBreak("%s constructor #%d initialiser list changed: %r" % (cls, ordinal, inits))
     # Arnoldi constructor: m_op(op), m_n(op.rows()), m_m(m), m_k(0)
@@ -1164,7 +1212,7 @@ def f_ctor(gen, report, ordinal=0):
     # the initialiser list as statements (members are initialised in declaration order, which is this order)
     pre_body = (" S->m_op = op; S->m_n = op->n; S->m_nev = nev; S->m_ncv = (ncv > S->m_n ? S->m_n : ncv); S->m_nmatop = 0; S->m_niter = 0; "
                 "S->m_fac.m_op = op; S->m_fac.m_n = op->n; S->m_fac.m_m = S->m_ncv; S->m_fac.m_k = 0; S->m_fac.g_valid_k = 0; "
-                "S->m_info = CompInfo_NotComputed; S->m_ritz_conv = BVEC_NEW(0); S->cnt_conv = 0; /* default-constructed Eigen members are empty */")
+                "S->m_info = CompInfo_NotComputed; S->m_ritz_conv = BVEC_NEW(0); S->cnt_conv = 0; /* default-constructed Eigen members are empty */" + extra_init)
     f.inits = ""
     f, inlined = X.inline_member_calls(f, hdr, cls)      # e.g. range checks factored out into a private helper shared by the constructors
     t, R = cgen.emit(f, "solver_ctor" + (str(ordinal) if ordinal else ""), ret_c="void", self_type="Solver", self_name="S", members=SOLVER_MEMBERS,
